@@ -3088,11 +3088,18 @@ class Mailbox:
         # When deleting a mailbox every message in that mailbox will be
         # deleted.
         #
+        # NOTE: The folder may live on (as a `\Noselect` place holder): its
+        #       `.mh_sequences` must not go on listing the messages we just
+        #       removed, or the next message delivered in to it inherits the
+        #       flags of the one whose number it gets.
+        #
         await mbox.mailbox.aclear()
         mbox.num_msgs = 0
         mbox.num_recent = 0
         mbox.uids = []
         mbox.sequences = defaultdict(set)
+        async with mbox.mh_sequences_lock:
+            mbox.mailbox.set_sequences({})
 
         # If the mailbox has any active clients we set their selected
         # mailbox to None. client.py will know if they try to do any
